@@ -254,7 +254,14 @@ impl Explorer {
             for a in &names {
                 let mut cands: Vec<u32> = names.iter().filter(|b| *b != a).filter_map(|b| c.witness.get(b).copied()).collect();
                 if let Some(v) = c.vars.iter().find(|v| &v.name == a) {
-                    if v.lo.is_finite() && v.hi.is_finite() {
+                    if v.dom == Dom::AnyBits {
+                        // the special values of binary32 and the negation of the other inputs (sums that cancel)
+                        let others: Vec<u32> = cands.iter().map(|b| b ^ 0x8000_0000).collect();
+                        cands.extend(others);
+                        for x in [0.0f32, -0.0, 1.0, -1.0, 0.5, 2.0, 0.001, 0.01, f32::NAN, f32::INFINITY, f32::NEG_INFINITY, f32::MAX, f32::MIN, f32::MIN_POSITIVE, 1.0e-45, f32::EPSILON, 16_777_216.0, 2_147_483_648.0] {
+                            cands.push(x.to_bits());
+                        }
+                    } else if v.lo.is_finite() && v.hi.is_finite() {
                         cands.push(v.lo.to_bits());
                         cands.push(v.hi.to_bits());
                     }
@@ -530,7 +537,12 @@ impl Explorer {
         let mut pool: Vec<StdMap<String, u32>> = vec![];
         let mut later: Vec<(usize, Ctx, Vec<usize>)> = vec![];
         let q0 = self.solver.stats.clone();
-        while let Some((witness, bound)) = work.pop() {
+        // pending prefixes are taken shallowest first (the flip of the earliest decision; ties: the newest): under a
+        // truncating budget this reaches the other side of every early branch before the deep combinations
+        while let Some((witness, bound)) = {
+            let best = work.iter().enumerate().min_by_key(|(i, w)| (w.1, usize::MAX - *i)).map(|(i, _)| i);
+            best.map(|i| work.remove(i))
+        } {
             if paths.len() >= self.opts.max_paths || t0.elapsed().as_secs_f64() > self.opts.budget_s {
                 stats.truncated = true;
                 stats.unexplored.push(format!("{} pending path prefixes dropped (path or time budget)", work.len() + 1));
